@@ -7,7 +7,7 @@ Theorem C08 : forall rules meth panics_inside mutating
 Proof. exact C08_proved. Qed.
 Print Assumptions C08.
 
-(* for flat rule sets (proofs/Frame.v: top-level names and field chains F.X, F.In.X - no selectors, methods or functions - constants, negation, parentheses, binary operators;
+(* for flat rule sets (proofs/Frame.v: top-level names, field chains and literal selectors F.X, F.In.X, F.Arr[2], F.M["k"] - no computed selectors, methods or functions - constants, negation, parentheses, binary operators;
    assignments and control built-ins) both hypotheses are theorems *)
 Theorem C08_flat : forall meth panics_inside mutating
   (meth_pure : forall fs f args ret fs', mutating f = false -> meth fs f args = Ok (ret, fs') -> fs' = fs)
